@@ -14,6 +14,7 @@ import (
 	"sort"
 	"strconv"
 	"strings"
+	"time"
 )
 
 type srcDict struct {
@@ -102,4 +103,75 @@ func (d srcDict) lines() []string {
 		}
 	}
 	return out
+}
+
+// sourceDurations: the `<int> * time.<Unit>` expressions of the given files (same path rules as
+// sourceDict), as durations.  Engines that hold a resource "for long" size the hold from these, so
+// that it outlasts any waiting limit that the code under test contains now.
+func sourceDurations(rel ...string) []time.Duration {
+	var files []string
+	for _, p := range rel {
+		full := filepath.Join(repoRoot(), p)
+		if st, err := os.Stat(full); err == nil && st.IsDir() {
+			ents, _ := os.ReadDir(full)
+			for _, e := range ents {
+				if strings.HasSuffix(e.Name(), ".go") && !strings.HasSuffix(e.Name(), "_test.go") {
+					files = append(files, filepath.Join(full, e.Name()))
+				}
+			}
+		} else {
+			files = append(files, full)
+		}
+	}
+	units := map[string]time.Duration{"Millisecond": time.Millisecond, "Second": time.Second, "Minute": time.Minute, "Hour": time.Hour}
+	seen := map[time.Duration]bool{}
+	var out []time.Duration
+	fset := token.NewFileSet()
+	for _, f := range files {
+		af, err := parser.ParseFile(fset, f, nil, 0)
+		if err != nil {
+			continue
+		}
+		ast.Inspect(af, func(n ast.Node) bool {
+			be, ok := n.(*ast.BinaryExpr)
+			if !ok || be.Op != token.MUL {
+				return true
+			}
+			lit, sel := be.X, be.Y
+			if _, ok := lit.(*ast.BasicLit); !ok {
+				lit, sel = be.Y, be.X
+			}
+			bl, ok1 := lit.(*ast.BasicLit)
+			se, ok2 := sel.(*ast.SelectorExpr)
+			if !ok1 || !ok2 || bl.Kind != token.INT {
+				return true
+			}
+			if x, ok := se.X.(*ast.Ident); !ok || x.Name != "time" {
+				return true
+			}
+			u, ok := units[se.Sel.Name]
+			v, err := strconv.ParseInt(bl.Value, 0, 64)
+			if ok && err == nil && v > 0 && v < 1<<20 {
+				if d := time.Duration(v) * u; !seen[d] {
+					seen[d] = true
+					out = append(out, d)
+				}
+			}
+			return true
+		})
+	}
+	sort.Slice(out, func(i, j int) bool { return out[i] < out[j] })
+	return out
+}
+
+// holdLongerThan: a duration exceeding every duration constant of the given files that is at most
+// `cap`, and at least `floor`
+func holdLongerThan(floor, cap time.Duration, rel ...string) time.Duration {
+	h := floor
+	for _, d := range sourceDurations(rel...) {
+		if d <= cap && d+d/4+500*time.Millisecond > h {
+			h = d + d/4 + 500*time.Millisecond
+		}
+	}
+	return h
 }
